@@ -11,11 +11,13 @@ fn main() {
             "C01" => c01::replay(body),
             "C03" => if body["kind"] == "c03" { c03::replay(body) } else { c01::replay(body) },
             "C06" | "C09" => c06::replay(body),
+            "C17" => c17::replay(body),
             _ => { eprintln!("no replay for {prop}"); false }
         };
         println!("reproduced={reproduced}");
         std::process::exit(if reproduced { 1 } else { 0 });
     }
+    if args.len() >= 2 && args[1] == "dbg17" { c17::debug(6, 3, 0, 0, 0, "sp3"); return; }
     if args.len() < 5 {
         eprintln!("usage: nv <prop> <tier> <seed> <outdir> | nv replay <file>");
         std::process::exit(2);
@@ -27,6 +29,7 @@ fn main() {
         "C01" => c01::main(tier, seed, outdir),
         "C06" => c06::main(tier, seed, outdir),
         "C03" => c03::main(tier, seed, outdir),
+        "C17" => c17::main(tier, seed, outdir),
         _ => { eprintln!("unknown property {prop}"); std::process::exit(2); }
     }
 }
